@@ -750,7 +750,7 @@ let do_rfr id ins outs =
         | Some (_, c, _) -> if c = [] then None else Some c | None -> None) in
     let parse_f content = read_hosts canon content in
     let st = ref { r_tbl = parse_f []; r_info = None; r_expires = Z0 } in
-    let now = ref 1 and file = ref None in
+    let now = ref 1 and file = ref None and away = ref None in
     let os = ref (String.split_on_char ';' outss) in
     let problems = ref [] and nl = ref 0 and nchanged = ref 0 in
     List.iteri (fun i o ->
@@ -760,6 +760,8 @@ let do_rfr id ins outs =
           incr nchanged;
           file := Some { s_stat = { f_mtime = z_of_int (int_of_string mt); f_size = z_of_int (List.length content) }; s_content = content }
         | ["A"; ms] -> now := !now + int_of_string ms * 1000000
+        | ["R"] -> away := !file; file := None; incr nchanged
+        | ["B"] -> file := !away; incr nchanged
         | ["L"; nm] ->
           incr nl;
           st := refresh parse_f !st (z_of_int !now) !file;
@@ -931,7 +933,9 @@ let do_router id ins outs =
       let v0 = view f e0.loaded in
       let lcs = List.filter (fun t -> String.length t >= 4) (String.split_on_char ',' script) in
       let crash = List.exists (fun t -> t.[3] = 'C') lcs in
-      let tag = Printf.sprintf "%s/n%d%s%s" fws (List.length lcs) (if crash then "/crash" else "") (if pristine = "1" then "" else "/remnant") in
+      let isf t = String.length t >= 5 && t.[4] = 'f' in
+      let faulted = List.exists isf lcs in
+      let tag = Printf.sprintf "%s/n%d%s%s%s" fws (List.length lcs) (if crash then "/crash" else "") (if pristine = "1" then "" else "/remnant") (if faulted then "/fault" else "") in
       (match outs with
        | [x] when String.length x > 9 && String.sub x 0 9 = "CHILDFAIL" ->
          verdict "router" id "diff" (tag ^ "/childfail") (string_of_bytes (bytes_of_token (String.sub x 10 (String.length x - 10))))
@@ -962,7 +966,7 @@ let do_router id ins outs =
           let (_, okc, lst, _) = split3 oc and (_, oks, _, envs) = split3 os in
           let es = r_parse_env envs in
           let nodns = (f = Generic) || (f = Synology && not es.dhcp_on) in
-          if okc = "ok" && oks = "ok" then begin
+          if okc = "ok" && oks = "ok" && not (isf t) then begin
             let ls = match lst with "L53" -> Some L53 | "LLoop" -> Some LLoop | "LLocalhost" -> Some LLocalhost | _ -> None in
             match ls with
             | Some ls -> if not (c20_setup_ok f c ls nodns (view f es.loaded)) then
@@ -975,10 +979,15 @@ let do_router id ins outs =
               let (_, okr, _, envr) = split3 orr in
               let er = r_parse_env envr in
               let v = view f er.loaded in
+              (* what a dnsmasq restarted now (by the owner, by the system) would read *)
+              let vdisk = view f { l_conf = er.conf; l_uci = er.uci_c; l_nv = er.nv } in
               let nodnsr = (f = Generic) || (f = Synology && not er.dhcp_on) in
+              let allclean = allclean && not (isf t) in
               if nodnsr then ()
               else if not (c20_not_pointing v) then
                 specfail := Printf.sprintf "after restore (%s): running dnsmasq still has %s" okr (r_view_str v) :: !specfail
+              else if not (c20_not_pointing vdisk) then
+                specfail := Printf.sprintf "after restore (%s): the configuration left on disk still points dnsmasq at the proxy: %s" okr (r_view_str vdisk) :: !specfail
               else if allclean && pristine = "1" && okr = "ok" && not (c20_restored v v0) then
                 specfail := Printf.sprintf "after a start/stop cycle the owner's configuration differs: now %s, before %s" (r_view_str v) (r_view_str v0) :: !specfail;
               walk lrest orest' allclean
@@ -991,6 +1000,7 @@ let do_router id ins outs =
         | [], [] -> None
         | x :: _, [] -> Some (i, x, "(missing)") | [], y :: _ -> Some (i, "(missing)", y) in
       if !specfail <> [] then verdict "router" id "spec:C20" tag (String.concat " ;; " (List.rev !specfail))
+      else if faulted then verdict "router" id "ok" tag ""   (* injected faults: judged by the specification only *)
       else match firstdiff 0 model outs with
         | None -> verdict "router" id "ok" tag ""
         | Some (i, m, o) -> verdict "router" id "diff" tag (Printf.sprintf "step %d model=%s impl=%s" i m o))
@@ -1112,7 +1122,9 @@ let do_cfg id ins outs =
               | O -> x = y
               | S O -> (match cond x, cond y with None, None -> true | Some a, Some b -> a = b | _ -> false)
               | _ -> (match cond x, cond y with Some a, Some b -> a = b | None, None -> true | _ -> false)) in
-          let parse _ v = Some v in
+          let parse j v = (match j with
+              | S (S O) when ascii_text v -> (match fwd_text_parse (fun _ -> true) v with Some r -> Some (fwd_text_show r) | None -> None)
+              | _ -> Some v) in
           let norm _ v = Some v in
           let d0 = { scalars = []; lists = [[]; []; []] } in
           (match load same parse norm d0 items with
@@ -1136,6 +1148,37 @@ let do_cfg id ins outs =
     else if !problems = [] then verdict "cfg" id "ok" tag ""
     else verdict "cfg" id "diff" tag detail
   | _ -> verdict "cfg" id "diff" "malformed-line" ""
+
+(* ---- engine fwdtext ----
+   fwt <id> <value> => <err> <Domain> <String()> <Domain after re-Set> <String() after re-Set> <len after re-Set on top>
+   model: Model/FwdText.v (newResolver / String at the level of text), valid := everything (rejected values are not compared) *)
+let do_fwt id ins outs =
+  match ins, outs with
+  | [v], [err; d1; s1; d2; s2; n] ->
+    let vb = bytes_of_token v in
+    if err = "1" then verdict "fwt" id "ok" "rejected" ""
+    else if not (ascii_text vb) then verdict "fwt" id "ok" "nonascii" ""
+    else begin
+      let enc l = (match l with [] -> "-" | _ -> hex_of_string (string_of_bytes l)) in
+      let problems = ref [] and specs = ref [] in
+      (match fwd_text_parse (fun _ -> true) vb with
+       | Some r ->
+         let md = enc (fst r) and ms = enc (fwd_text_show r) in
+         if md <> d1 then problems := Printf.sprintf "Domain impl=%s model=%s" d1 md :: !problems;
+         if ms <> s1 then problems := Printf.sprintf "String impl=%s model=%s" s1 ms :: !problems
+       | None -> problems := "model rejects" :: !problems);
+      (* specification on the implementation's own observation: what String() prints is read back to the same
+         rule (same Domain, same printed form) and replaces the rule it came from (theorem C17_forwarder_text) *)
+      if d2 <> d1 || s2 <> s1 then begin specs := "C17" :: !specs;
+        problems := Printf.sprintf "String() %s reloads as Domain=%s String=%s (was Domain=%s)" s1 d2 s2 d1 :: !problems end;
+      if n <> "1" then begin specs := "C17" :: !specs; problems := Printf.sprintf "re-Set of String() left %s rules" n :: !problems end;
+      let tag = (match printed_cond vb with None -> "nocond" | Some _ -> if List.exists (fun c -> c = bytes_tab.(32) || c = bytes_tab.(9)) vb then "cond+ws" else "cond") in
+      let detail = String.concat "; " (List.rev !problems) in
+      if !specs <> [] then verdict "fwt" id "spec:C17" tag detail
+      else if !problems = [] then verdict "fwt" id "ok" tag ""
+      else verdict "fwt" id "diff" tag detail
+    end
+  | _ -> verdict "fwt" id "diff" "malformed-line" ""
 
 (* ---- engine clientinfo ---- *)
 let hexs (l : z list) = match l with [] -> "-" | _ -> hex_of_string (string_of_bytes l)
@@ -1255,6 +1298,7 @@ let () =
       | "ci" :: id :: rest -> let (i, o) = split_arrow rest in do_ci id i o
       | "hdr" :: id :: rest -> let (i, o) = split_arrow rest in do_hdr id i o
       | "cfg" :: id :: rest -> let (i, o) = split_arrow rest in do_cfg id i o
+      | "fwt" :: id :: rest -> let (i, o) = split_arrow rest in do_fwt id i o
       | "rc" :: id :: rest -> let (i, o) = split_arrow rest in do_rc id i o
       | "router" :: id :: rest -> let (i, o) = split_arrow rest in do_router id i o
       | "race" :: id :: rest -> let (i, o) = split_arrow rest in do_race id i o
@@ -1281,6 +1325,21 @@ let () =
            if rc = "1" && reported = "1" then verdict "dbind" id "ok" tag ""
            else verdict "dbind" id "spec:C16" tag (Printf.sprintf "the daemon was started on an address it cannot bind: exit status %s after %s ms, bind failure reported=%s (expected: reported, exit 1)" rc ms reported)
          | _ -> verdict "dbind" id "diff" "malformed-line" "")
+      | "dops" :: id :: rest ->
+        (* life cycle of the real proxySvc against the extracted specification Model/Svc.v *)
+        let (i, o) = split_arrow rest in
+        (match i with
+         | [script] ->
+           let ops = List.filter_map (function "O" -> Some SvOccupy | "F" -> Some SvFree | "S" -> Some SvStart | "T" -> Some SvStop
+                                             | "R" -> Some SvRestart | _ -> None) (String.split_on_char ',' script) in
+           let tag = Printf.sprintf "n%d%s" (min (List.length ops) 9) (if String.length script > 2 && String.sub script 0 3 = "O,S" then "/occupied-first" else "") in
+           if not (svc_wf svc0 ops) then verdict "dops" id "diff" tag "history outside the specification"
+           else begin
+             let want = List.map (fun (ok, held) -> (if ok then "ok" else "err") ^ "/" ^ (if held then "1" else "0")) (snd (svc_run svc0 ops)) in
+             if want = o then verdict "dops" id "ok" tag ""
+             else verdict "dops" id "spec:C16" tag (Printf.sprintf "service life cycle %s: reported/holds-the-address %s, expected %s" script (String.concat " " o) (String.concat " " want))
+           end
+         | _ -> verdict "dops" id "diff" "malformed-line" "")
       | "prof" :: id :: rest -> let (i, o) = split_arrow rest in do_prof id i o
       | _ -> ())
       with
